@@ -190,6 +190,16 @@ class FeArray(np.ndarray):
 
         if elementwise:
             inputs = FeArray._align(inputs)
+        elif (
+            ufunc is np.matmul
+            and method == "__call__"
+            and not kwargs
+            and len(inputs) == 2
+            and not isinstance(inputs[0], FeArray)
+            and inputs[1]._ndim == 1
+        ):
+            # np.matmul(constant, vector field) would take (nPg, dim) for the matrix axes
+            return inputs[1].__rmatmul__(inputs[0])
 
         # ndarray refuses to run a ufunc on a subclass that overrides __array_ufunc__, so hand
         # it plain views -- of the `out` and `where` operands too, or the call comes straight
@@ -269,6 +279,10 @@ class FeArray(np.ndarray):
             return FeArray.asfearray(np.einsum("...ij,...j->...i", self, other))
         else:
             return self.dot(other)
+
+    def __rmatmul__(self, other) -> FeArrayALike:
+        # `constant @ field`: the plain array is a constant tensor held at every (element, Gauss point)
+        return FeArray.asfearray(other, broadcastFeArrays=True) @ self
 
     @staticmethod
     @lru_cache(maxsize=16)
